@@ -244,7 +244,7 @@ where
   Y: Into<Complex<f64>>,
 {
   let divs = divs + divs % 2 - 2; // nearest even
-  assert!(divs >= 4, "Steps too low");
+  assert!(divs >= 2, "Steps too low");
   let dx = (b - a) / (divs as f64);
 
   let intg = |(i, a_n)| {
